@@ -10,13 +10,13 @@ Open Scope list_scope.
     - the seed is a node; every dependency (call, import, interface, planned addition) of a node is a node;
     - every edge joins two nodes and is a dependency of its source;
     - every node is reachable from the seed. *)
-Definition inv (seed : nref) (st : state) : Prop :=
+Definition inv (seed : list nref) (st : state) : Prop :=
   (forall e, In e (st_cache st) -> e_key e = e_name e) /\
   NoDup (map e_key (st_cache st)) /\
-  In seed (st_nodes st) /\
+  incl seed (st_nodes st) /\
   (forall x d, In x (st_nodes st) -> In d (deps_of st x) -> In d (st_nodes st)) /\
   (forall x y, In (x, y) (st_edges st) -> In x (st_nodes st) /\ In y (st_nodes st) /\ In y (deps_of st x)) /\
-  (forall x, In x (st_nodes st) -> reach st seed x).
+  (forall x, In x (st_nodes st) -> exists s, In s seed /\ reach st s x).
 
 Lemma mem_s_In x l : mem_s x l = true <-> In x l.
 Proof.
@@ -50,43 +50,58 @@ Theorem init_inv disk seed st : init disk seed = Some st -> inv seed st.
 Proof. intros H. eapply inv_of; [exact H|]. eapply init_kok; eauto. Qed.
 
 Theorem step_inv disk seed st o st' :
-  kok (st_cache st) -> step disk seed st o = Some st' -> inv seed st' /\ kok (st_cache st').
+  kok (st_cache st) -> step disk seed st o = Some st' -> inv (next_seeds o st seed) st' /\ kok (st_cache st').
 Proof.
   intros K H. pose proof (step_kok _ _ _ _ _ H K) as K'. split; [|exact K'].
   unfold step in H. destruct (transform o st); [|discriminate]. eapply inv_of; eauto.
 Qed.
 
-(** every state of every history *)
-Theorem history_inv disk seed : forall ops st0 sts,
-  kok (st_cache st0) -> run disk seed st0 ops = Some sts -> Forall (inv seed) sts.
+(** the seed list a state of a history was rebuilt from, paired with the state *)
+Fixpoint run_seeds (disk : list source) (seed : list nref) (st : state) (ops : list op) : list (list nref) :=
+  match ops with
+  | [] => []
+  | o :: r => match step disk seed st o with
+              | Some st' => next_seeds o st seed :: run_seeds disk (next_seeds o st seed) st' r
+              | None => []
+              end
+  end.
+
+(** every state of every history, each with the seed list as renamed so far *)
+Theorem history_inv disk : forall ops seed st0 sts,
+  kok (st_cache st0) -> run disk seed st0 ops = Some sts ->
+  Forall2 inv (run_seeds disk seed st0 ops) sts.
 Proof.
-  induction ops as [|o r IH]; intros st0 sts K H; cbn [run] in H.
+  induction ops as [|o r IH]; intros seed st0 sts K H; cbn [run run_seeds] in *.
   - inversion H; constructor.
   - destruct (step disk seed st0 o) as [st1|] eqn:S; [|discriminate].
-    destruct (run disk seed st1 r) as [l|] eqn:R; [|discriminate]. inversion H; subst.
+    destruct (run disk (next_seeds o st0 seed) st1 r) as [l|] eqn:R; [|discriminate]. inversion H; subst.
     destruct (step_inv _ _ _ _ _ K S) as [I1 K1]. constructor; [exact I1|]. eapply IH; eauto.
 Qed.
 
 Corollary history_inv_from_init disk seed ops st0 sts :
-  init disk seed = Some st0 -> run disk seed st0 ops = Some sts -> Forall (inv seed) (st0 :: sts).
+  init disk seed = Some st0 -> run disk seed st0 ops = Some sts ->
+  Forall2 inv (seed :: run_seeds disk seed st0 ops) (st0 :: sts).
 Proof.
   intros H0 H. constructor; [now apply (init_inv disk)|].
   eapply history_inv; [|exact H]. eapply init_kok; eauto.
 Qed.
 
-(** the operations as a fold *)
-Definition step_opt disk seed (acc : option state) (o : op) : option state :=
-  match acc with Some s => step disk seed s o | None => None end.
+(** the operations as a fold over (seed list, state) *)
+Definition step_opt disk (acc : option (list nref * state)) (o : op) : option (list nref * state) :=
+  match acc with
+  | Some (seed, s) => match step disk seed s o with Some s' => Some (next_seeds o s seed, s') | None => None end
+  | None => None
+  end.
 
-Lemma fold_none disk seed ops : fold_left (step_opt disk seed) ops None = None.
+Lemma fold_none disk ops : fold_left (step_opt disk) ops None = None.
 Proof. induction ops; cbn; auto. Qed.
 
-Theorem fold_history_inv disk seed ops st0 st :
-  init disk seed = Some st0 -> fold_left (step_opt disk seed) ops (Some st0) = Some st -> inv seed st.
+Theorem fold_history_inv disk seed ops st0 seed' st :
+  init disk seed = Some st0 -> fold_left (step_opt disk) ops (Some (seed, st0)) = Some (seed', st) -> inv seed' st.
 Proof.
   intros H0. assert (K : kok (st_cache st0)) by (eapply init_kok; eauto).
   assert (I : inv seed st0) by (now apply (init_inv disk)).
-  clear H0. revert st0 K I. induction ops as [|o r IH]; intros st0 K I H; cbn [fold_left] in H.
+  clear H0. revert seed st0 K I. induction ops as [|o r IH]; intros seed st0 K I H; cbn [fold_left] in H.
   - inversion H; now subst.
   - cbn [step_opt] in H. destruct (step disk seed st0 o) as [st1|] eqn:S.
     + destruct (step_inv _ _ _ _ _ K S) as [I1 K1]. eapply IH; eauto.
@@ -104,7 +119,8 @@ Qed.
 Theorem later_processing_visits_survivors seed st :
   inv seed st ->
   forall x, In x (visits st) <->
-            exists s r, x = (s ++ "#" ++ r)%string /\ In (NProc s r) (st_nodes st) /\ reach st seed (NProc s r).
+            exists s r, x = (s ++ "#" ++ r)%string /\ In (NProc s r) (st_nodes st) /\
+                        exists s0, In s0 seed /\ reach st s0 (NProc s r).
 Proof.
   intros (_ & _ & _ & _ & _ & R) x. unfold visits. rewrite in_map_iff. split.
   - intros ([s r] & <- & H). apply in_proc_nodes in H. exists s, r. cbn. auto.
@@ -121,7 +137,7 @@ Definition ex_disk : list source :=
     mk_source "/mfile.f90" [TMod "m_mod" [rt "ka" ["kl"] [("l_mod", ["kl"])] []; rt "kb" ["kl"] [("l_mod", ["kl"]); ("d_mod", ["gv"])] []; rt "kc" [] [] []]];
     mk_source "/sub/l_mod.f90" [TMod "l_mod" [rt "kl" [] [] []]];
     mk_source "/d_mod.f90" [TMod "d_mod" []] ].
-Definition ex_seed := NProc "" "driver".
+Definition ex_seed := [NProc "" "driver"].
 Definition ex_ops := [ODup "ka" "_dup" "_dup" true; OWrap "_mod"; ODep "_test" "_mod"; ORem "zz"].
 
 Definition names_of (st : state) : list string := map nname (st_nodes st).
@@ -139,6 +155,22 @@ Example example_history :
 Proof.
   eexists. eexists. eexists. split; [vm_compute; reflexivity|]. split; [vm_compute; reflexivity|].
   split; [vm_compute; reflexivity|]. split; [reflexivity|]. split; vm_compute; reflexivity.
+Qed.
+
+(** several seeds, two of them kernels: the seed list is renamed element by element and the renamed entry points are
+    graph nodes *)
+Definition ex_seeds2 := [NProc "" "driver"; NProc "m_mod" "kc"; NProc "" "kf"].
+Example multi_seed_history :
+  exists st0 sts,
+    init ex_disk ex_seeds2 = Some st0 /\ run ex_disk ex_seeds2 st0 [OWrap "_mod"; ODep "_test" "_mod"] = Some sts /\
+    forallb consistent_b (st0 :: sts) = true /\
+    seeds_after ex_disk ex_seeds2 st0 [OWrap "_mod"; ODep "_test" "_mod"] =
+      [NProc "" "driver"; NProc "m_test_mod" "kc_test"; NProc "kf_test_mod" "kf_test"] /\
+    forallb (fun n => mem_n n (st_nodes (last sts st0)))
+            [NProc "" "driver"; NProc "m_test_mod" "kc_test"; NProc "kf_test_mod" "kf_test"] = true.
+Proof.
+  eexists. eexists. split; [vm_compute; reflexivity|]. split; [vm_compute; reflexivity|].
+  split; [vm_compute; reflexivity|]. split; vm_compute; reflexivity.
 Qed.
 
 (** between the transformation and rekey_item_cache the keys are stale: the re-keying is needed *)
